@@ -13,6 +13,11 @@ Input language (mirrors Model/Loader.v):
   key     'name' | 'basename' | <attribute name> | ('unknown', n)
   creator dict(name=str, result=item, delayed=None | (executed|None, [creates..]))
 
+Definition order (harness/c18_order.py): dodo modules written as source text (plain / decorated / wrapped with and without
+functools.wraps / @create_after / @task_params / create_doit_tasks attributes / lambdas / partial objects / aliases / imported
+creators), imported and loaded for real; the model gets, per object of the namespace, the facts _get_task_creators asks for and
+the definition line the harness computed from the text it wrote (never from inspect).
+
 Encoding compared (list of ints), see Loader.v `enc`:
   accepted   0, #tasks, then per task: name, has_subtask, subtask_of or -1, #task_dep, the task_deps
              (a string = its length followed by its character codes)
@@ -53,6 +58,12 @@ Definition cli (r : list Z) : list Z := match r with 0 :: _ => [0; 0] | 1 :: _ =
 Definition C (name : string) (r : item) : creator := {| c_name := name; c_result := r; c_delayed := None |}.
 Definition CD (name : string) (r : item) (e : option string) (cr : list string) : creator :=
   {| c_name := name; c_result := r; c_delayed := Some (e, cr) |}.
+(* namespaces: _get_task_creators + the sort by definition line *)
+Definition CI (l : Z) (r : item) (d : option (option string * list string)) : cinfo := {| ci_line := l; ci_result := r; ci_delayed := d |}.
+Definition EN (n : string) (tp f : bool) (self : cinfo) (cr : option (option string * cinfo)) : entry :=
+  {| e_name := n; e_is_task_params := tp; e_isfunc := f; e_self := self; e_create := cr |}.
+Definition LN (cmds : list string) (allow : bool) (ns : list entry) : list Z := enc (load_namespace fmt0 fnmatch_star L2 cmds allow ns).
+Definition LTN (cmds : list string) (allow : bool) (ns : list entry) : list Z := enc (load_tasks_namespace fmt0 L2 cmds allow ns).
 '''
 
 
@@ -222,17 +233,18 @@ def crash_site(tb):
     return site
 
 
-def observe(case, control=True):
-    """-> (encoding, tasks or None, crash-site or None)"""
+def observe(case, control=True, ns=None):
+    """-> (encoding, tasks or None, crash-site or None); ns: an already built namespace (cases of source text)"""
     from doit.loader import load_tasks
     from doit.control import TaskControl
     from doit.exceptions import InvalidTask, InvalidDodoFile, InvalidCommand
     try:
-        ns = namespace(case['creators'])
+        if ns is None:
+            ns = namespace(case['creators'])
         tasks = load_tasks(ns, case['cmds'], allow_delayed=case['allow'])
         if control:
             TaskControl(tasks)
-        return enc_tasks(tasks, ns['__objs']), list(tasks), None
+        return enc_tasks(tasks, ns.get('__objs') or Objects()), list(tasks), None
     except InvalidTask:
         return [1, 1], None, None
     except InvalidDodoFile:
@@ -688,13 +700,179 @@ def judge(out, case, obs, tasks, site):
             out.violations.append(dict(what='accepted task set is not well-formed: ' + w[1], shape='not-wellformed:' + w[0], case=desc))
 
 
+# ------------------------------------------------------------------ definition order (dodo modules as source text)
+def order_cases(ctx):
+    import c18_order as O
+    cases = [O.build(sp, 'd%d' % i) for i, sp in enumerate(O.directed_specs())]
+    for i in range(ctx.n(500, 5000)):
+        cases.append(O.build(O.rand_spec(ctx.rng, ('random', i)), 's%d_%d' % (ctx.seed, i)))
+    return cases
+
+
+def cli_list_definition(ctx, ns):
+    """`doit list --all --sort definition -q` in-process -> (exit code, stderr, listed names)"""
+    from doit.doit_cmd import DoitMain
+    from doit.cmd_base import ModuleTaskLoader
+    d = ctx.subdir('cli')
+    real = (sys.stdout, sys.stderr)
+    cwd = os.getcwd()
+    out, err = io.StringIO(), io.StringIO()
+    try:
+        os.chdir(d)
+        sys.stdout, sys.stderr = out, err
+        try:
+            rc = DoitMain(ModuleTaskLoader(ns)).run(['list', '--all', '--sort', 'definition', '-q', '--db-file', os.path.join(d, 'db')])
+        except BaseException as e:  # noqa
+            rc = 98
+    finally:
+        sys.stdout, sys.stderr = real
+        os.chdir(cwd)
+    return rc, err.getvalue(), out.getvalue().split()
+
+
+def observe_order(ctx, case, d, cli=False):
+    """import the generated module and load it -> dict(obs, obs_lt, names, tasks, site, cli)"""
+    import c18_order as O
+    arg = dict(cmds=cmd_names(), allow=case['allow'])
+    r = dict(obs=[2, 98], obs_lt=[2, 98], names=None, tasks=None, site=None, cli=None)
+    try:
+        try:
+            mod, ns = O.load_namespace(d, case)
+        except BaseException as e:  # noqa
+            r['site'] = 'import:%s:%s' % (type(e).__name__, e)
+            return r
+        r['obs'], r['tasks'], r['site'] = observe(arg, control=True, ns=ns)
+        r['obs_lt'], tasks_lt, site_lt = observe(arg, control=False, ns=ns)
+        r['site'] = r['site'] or site_lt
+        if tasks_lt is not None:
+            r['names'] = [t.name for t in tasks_lt]
+        if cli:
+            r['cli'] = cli_list_definition(ctx, ns)
+        return r
+    finally:
+        O.forget(d, case)
+
+
+def judge_order(out, case, r):
+    import c18_order as O
+    desc = O.public(case)
+    if r['obs'][0] == 2 or r['obs_lt'][0] == 2:
+        out.violations.append(dict(what='loading a generated dodo module raised %s instead of an invalid-task/invalid-dodo error' % r['site'],
+                                   shape='crash:%s' % str(r['site']).split(' ')[0][:60], case=desc))
+    if r['names'] is not None:
+        w = O.order_violation(case, r['names'])
+        if w:
+            out.violations.append(dict(what='tasks are not loaded in definition order: ' + w, shape='definition-order', case=desc))
+    if r['obs'][0] == 0 and r['tasks'] is not None:
+        w = wellformed_violation(r['tasks'])
+        if w:
+            out.violations.append(dict(what='accepted task set is not well-formed: ' + w[1], shape='not-wellformed:' + w[0], case=desc))
+    if r['cli'] is not None:
+        rc, err, listed = r['cli']
+        if r['names'] is not None and (rc != 0 or listed != r['names']):
+            out.violations.append(dict(what='`doit list --all --sort definition -q` printed %s (exit %s), load_tasks gave %s' % (listed, rc, r['names']),
+                                       shape='definition-order', case=desc))
+        if r['obs_lt'][0] == 1 and not (rc == 3 and err.startswith('ERROR:') and 'Traceback' not in err):
+            out.violations.append(dict(what='`doit list` on an invalid task set: exit %s, stderr %r' % (rc, err[:200]), shape='cli-list-invalid', case=desc))
+
+
+def run_order(ctx, out, model_cases):
+    """-> number of command line runs"""
+    import c18_order as O
+    d = ctx.subdir('order')
+    cases = order_cases(ctx)
+    cli_every = ctx.n(6, 12)
+    n_cli = 0
+    stats = dict(cases=len(cases), oracle_checked=0, creator_hidden_by_wrapper=0, creator_seen_through_wraps=0, equal_lines=0)
+    for i, c in enumerate(cases):
+        cli = (c['label'][0] == 'directed' or i % cli_every == 0) and not c['allow']
+        r = observe_order(ctx, c, d, cli=cli)
+        judge_order(out, c, r)
+        # one evaluation per case: load_tasks + TaskControl, load_tasks alone and (when run) the exit code of `doit list`
+        a = 'true' if c['allow'] else 'false'
+        model = 'let ns := %s in\n LN cmds0 %s ns ++ (-7) :: LTN cmds0 %s ns' % (O.entries_coq(c), a, a)
+        expected = r['obs'] + [-7] + r['obs_lt']
+        if r['cli'] is not None:
+            n_cli += 1
+            rc, err, _ = r['cli']
+            model += ' ++ (-7) :: cli (LTN cmds0 %s ns)' % a
+            expected += [-7, rc, 1 if 'Traceback' in err else 0]
+            out.count('cli-list:exit%d' % rc)
+        model_cases.append(dict(model='(%s)%%list' % model, expected=expected, desc=('order', c['label'])))
+        out.count('order:%s' % ['accepted', 'rejected', 'crashed'][r['obs'][0]])
+        for f in c['forms']:
+            out.count('order-form:%s' % f)
+        out.nontrivial.add(('order', str(c['label'])))
+        stats['oracle_checked'] += 1 if (r['names'] is not None and len(c['expected']) >= 2) else 0
+        stats['creator_hidden_by_wrapper'] += 1 if c['hidden'] else 0
+        stats['creator_seen_through_wraps'] += 1 if c['through_wraps'] else 0
+        stats['equal_lines'] += 1 if c['n_keys'] < c['n_creators'] else 0
+        c['_obs'] = r['obs']
+    out.extra['definition_order'] = stats
+    for c in cases[:1] + [c for c in cases if c['label'][0] == 'random'][:1]:
+        out.samples.append(dict(label=str(c['label']), files=c['files'], expected_order=c['expected'], observed=c['_obs']))
+    return n_cli
+
+
+
+DELAYED_BAD = """
+from doit import create_after
+def task_pre():
+    return {'actions': ['echo pre']}
+def task_real():
+    return {'actions': ['echo real']}
+@create_after(executed='pre')
+def task_late():
+    BODY
+"""
+
+
+def part_delayed_invalid(ctx, out):
+    """tasks created at RUN time by a create_after creator that reference a task name that does not exist (task_dep, setup,
+    calc_dep, getargs): rejected with a diagnostic naming the reference, never an internal traceback (fix 8f57713)"""
+    import subprocess, tempfile
+    bodies = {
+        'task_dep': "return {'actions': ['echo late'], 'task_dep': ['ghost']}",
+        'setup': "return {'actions': ['echo late'], 'setup': ['ghost']}",
+        'calc_dep': "return {'actions': ['echo late'], 'calc_dep': ['ghost']}",
+        'getargs': "return {'actions': ['echo late'], 'getargs': {'v': ('ghost', 'x')}}",
+        'sub-task_dep': "yield {'name': 'a', 'actions': ['echo a'], 'task_dep': ['real']}\n    yield {'name': 'b', 'actions': ['echo b'], 'task_dep': ['ghost']}",
+        'ok': "return {'actions': ['echo late'], 'task_dep': ['real']}",
+    }
+    n = 0
+    for kind, body in bodies.items():
+        for par in ([], ['-n', '2', '-P', 'thread']):
+            d = tempfile.mkdtemp(prefix='c18dl_', dir=ctx.tmp); n += 1
+            src = DELAYED_BAD.replace('BODY', body)
+            open(os.path.join(d, 'dodo.py'), 'w').write(src)
+            try:
+                p = subprocess.run([sys.executable, '-m', 'doit', 'run'] + par, cwd=d, env=common.impl_env(), capture_output=True, text=True, timeout=60)
+                rc, txt = p.returncode, p.stdout + p.stderr
+            except subprocess.TimeoutExpired:
+                rc, txt = 98, 'timeout'
+            out.count('delayed-invalid:%s:rc%s' % (kind, rc)); out.evaluations += 1
+            out.nontrivial.add(('delayed-invalid', kind, tuple(par)))
+            case = dict(part='delayed-invalid', dodo=src, args=par, exit=rc, output=txt[-800:])
+            if kind == 'ok':
+                if rc != 0:
+                    out.violations.append(dict(what='a valid task created by a delayed creator was not run (exit %s)' % rc, shape='delayed-created-valid-rejected', case=case))
+                continue
+            if 'Traceback' in txt or rc in (0, 98) or 'ghost' not in txt:
+                out.violations.append(dict(
+                    what='a task created at run time by a create_after creator names a task that does not exist (%s): expected a diagnostic naming it and a non-zero exit code, got exit %s%s'
+                         % (kind, rc, ' and an internal traceback' if 'Traceback' in txt else ''),
+                    shape='delayed-created-dangling-dep', case=case))
+    out.extra['delayed_invalid_runs'] = n
+
 def run(ctx):
     out = Outcome()
     out.rule = ('single fault: every attribute (name, basename and the 18 of Task.valid_attr) x every type tag x {returned dict, yielded dict, '
                 'sub-task, Task object}; element faults: every list attribute x every element tag x {list, tuple}, getargs values x setup x uptodate; '
                 'the listed bad inputs (unknown field, missing actions/name, duplicate names in 15 positions, command names, duplicate targets, '
                 'dangling task_dep/setup/calc_dep/getargs) ; all pairs (attribute, tag) over 9 tags in the thorough tier (a sample in quick); '
-                'random namespaces of 1-3 creators with nested generators, Task objects, group definitions, delayed creators.  '
+                'random namespaces of 1-3 creators with nested generators, Task objects, group definitions, delayed creators; '
+                'definition order: dodo modules written as source text (every kind of decorator x where it is defined x both namespace orders, '
+                'each creator form one by one, random mixes of 3-8 definitions) imported and loaded for real.  '
                 'non-trivial = distinct case (kind, label); every case is a distinct input')
     groups = [gen_single_fault(), gen_elements(), gen_rules()]
     pairs = gen_pairs(ctx)
@@ -741,6 +919,7 @@ def run(ctx):
             if c['_obs'][0] == 1 and not (rc == 3 and err.startswith('ERROR:') and 'Traceback' not in err):
                 out.violations.append(dict(what='`doit clean -n` on an invalid task set: exit %s, stderr %r' % (rc, err[:200]), shape='cli-clean-invalid',
                                            case=dict(label=str(c['label']), creators=c['creators'])))
+    n_cli += run_order(ctx, out, model_cases)
     out.extra['cli_runs'] = n_cli
     # most severe first (the check prints the first few distinct shapes): crashes on documented types, groups that
     # lose sub-tasks, duplicates accepted, other crashes, wrong types accepted
@@ -752,12 +931,13 @@ def run(ctx):
         if sh.startswith('crash'): return 3
         return 4
     out.violations.sort(key=severity)
+    part_delayed_invalid(ctx, out)
     shapes = {}
     for v in out.violations:
         e = shapes.setdefault(v['shape'], dict(count=0, what=v['what'], example=v['case']))
         e['count'] += 1
     out.extra['violation_shapes'] = shapes
-    out.evaluations = len(model_cases)
+    out.evaluations = len(model_cases) + out.extra.get('delayed_invalid_runs', 0)
     pre = PRE + 'Definition cmds0 : list string := [%s].\n' % '; '.join(cstr(x) for x in cmd_names())
     bad = compare(ctx, pre, model_cases)
     out.traces_validated = len(model_cases)
@@ -768,8 +948,9 @@ def run(ctx):
     out.assumptions = [
         'format of a non-str value inside the f-string building `basename:name` and fnmatch are oracles (Section variables); the check instantiates them for ints/bools/None/empty containers and for patterns of literals and *',
         'file_dep is a set in the code: the model iterates it in list order; generated cases have at most one file_dep that is a target of another task',
-        'the order of the creators (line numbers, _get_task_creators) is an input of the model',
-        '@task_params, result_dep objects in uptodate and BaseAction instances in clean/teardown are not modelled',
+        'the definition line of every task-creator (inspect.getsourcelines) is an input of the model: the check computes it from the source text it generated (symbolic evaluation of the decorators), never by asking inspect; for the namespaces built in-process all creators share one line and the order is the one of the dict',
+        'creators whose source inspect cannot read (exec / eval, functools.partial as create_doit_tasks) are not generated',
+        'the parameters given by @task_params, result_dep objects in uptodate and BaseAction instances in clean/teardown are not modelled',
     ]
     out.extra['trusted_base'] = ['mapping of concrete Python values to the tags of Model/Loader.v (harness/c18.py to_py / to_coq)']
     return out
@@ -785,7 +966,14 @@ def compare(ctx, pre, model_cases, batch=16):
         items.append(('', 'firstbad 0 [%s]' % ';\n '.join('cmpZ (%s) %s' % (c['model'], common.zlist(c['expected']))
                                                          for c in model_cases[s:s + batch])))
     shard = max(4, -(-len(items) // common.NCPU))
-    outs = common.coq_eval(ctx, pre, items, shard=shard, tag='corr')
+    # the kinds of cases differ a lot in size: spread them evenly over the shards
+    import random
+    perm = list(range(len(items)))
+    random.Random(0).shuffle(perm)
+    res = common.coq_eval(ctx, pre, [items[j] for j in perm], shard=shard, tag='corr')
+    outs = [None] * len(items)
+    for k, j in enumerate(perm):
+        outs[j] = res[k]
     bad = []
     for b, o in enumerate(outs):
         if o != 'None':
@@ -794,8 +982,36 @@ def compare(ctx, pre, model_cases, batch=16):
     return bad
 
 
+def replay_order(ctx, case):
+    import c18_order as O
+    for fn, text in sorted(case['files'].items()):
+        print('----- %s' % fn)
+        for i, l in enumerate(text.split('\n')[:-1]):
+            print('%3d  %s' % (i + 1, l))
+    print('----- namespace: %s' % ('dict(inspect.getmembers(module))' if case['ns_mode'] == 'members' else 'module.__dict__'))
+    case = dict(case, label=tuple(case['label']) if isinstance(case['label'], list) else case['label'])
+    r = observe_order(ctx, case, ctx.subdir('replay'), cli=True)
+    import gc
+    for o in gc.get_objects():      # the dbm object `doit list` leaves open: close it while its directory still exists
+        if type(o).__module__ == 'dbm.dumb' and type(o).__name__ == '_Database':
+            o.close()
+    print('observed:', {0: 'accepted', 1: 'rejected', 2: 'crashed'}[r['obs_lt'][0]], r['names'] if r['names'] is not None else r['obs_lt'], r['site'] or '')
+    print('written in this order (creators whose definition inspect can reach):', case['expected'])
+    bad = r['obs_lt'][0] == 2
+    if r['names'] is not None:
+        w = O.order_violation(case, r['names'])
+        print('definition order:', w or 'kept')
+        bad = bad or bool(w)
+        if r['cli'] is not None:
+            print('doit list --all --sort definition -q:', r['cli'][2], 'exit', r['cli'][0])
+            bad = bad or r['cli'][2] != r['names']
+    return 1 if bad else 0
+
+
 def replay(ctx, payload):
     case = payload.get('case', payload)
+    if 'files' in case:
+        return replay_order(ctx, case)
     c = dict(creators=[dict(name=x['name'], result=_tup(x['result']), delayed=_tup(x.get('delayed'))) for x in case['creators']],
              allow=case.get('allow', False), cmds=cmd_names() if not isinstance(case.get('cmds'), list) else case['cmds'])
     obs, tasks, site = observe(c, control=True)
